@@ -55,7 +55,13 @@ def run(chk, tier):
     import unionlevel
     nul, ulh = unionlevel.run(chk, P)
     chk.floor("R-UNIONLEVEL", "calls of level-wide attribute readers", nul, 1)
-    chk.decided += ['the dont_merge flag of a Group level is read from the level that is about to be merged (not from its neighbour): Groups that asked not to be merged survive the level filtering, and no non-Group attribute is read as a Group attribute',
+    chk.rule("R-PUTBACK", "hwloc___insert_object_by_cpuset(): every field of a child that is rewritten in the block that moves the child below the new object is stored again by the put-back section "
+             "(the blocks from which no successful return is reachable): a failed insertion leaves no child pointing at the rejected object, which the caller frees")
+    import putback
+    npb = putback.run(chk, P)
+    chk.floor("R-PUTBACK", "adopted-child fields", npb, 2)
+    chk.decided += ['a failed insertion gives every adopted child back completely (parent and sibling links restored by the put-back path)',
+                    'the dont_merge flag of a Group level is read from the level that is about to be merged (not from its neighbour): Groups that asked not to be merged survive the level filtering, and no non-Group attribute is read as a Group attribute',
                     'an identifier imported from XML never leaves the gp_index allocator at or below it (boundary evaluation)',
                     "indexes into counted array fields stay below the count in every function that the bound analysis covers (19 functions frozen out of scope)",
                     'no pointer is used (or released again) after its release in any library function',
